@@ -562,8 +562,14 @@ func cmdCheck(args []string) int {
 		}
 		ok := !no.AssumeFailed && no.Panic == "" && strings.Join(no.Observed, "\n") == strings.Join(wr.w.Observed, "\n")
 		// assertions that passed symbolically must pass natively on the witness
+		// (a label asserted several times on one path may pass once and fail once: then it is in both lists)
 		for _, a := range wr.w.Asserts {
-			if has(no.Failed, a) {
+			if has(no.Failed, a) && !has(wr.w.Failed, a) {
+				ok = false
+			}
+		}
+		for _, a := range wr.w.Failed {
+			if !has(no.Failed, a) {
 				ok = false
 			}
 		}
